@@ -114,6 +114,7 @@ pub fn execute(plan: &Plan, choices: Option<Vec<u32>>, record: bool, props: &[St
                 (Op::Sleep { .. }, Some(_)) => add("virtual_sleep", 1),
                 (Op::Insert { .. }, Some(Res::Bool(false))) => add("insert_refused_or_dropped", 1),
                 (Op::Get { hold, .. }, Some(_)) if *hold > 0 => add("value_ref_held_across_steps", 1),
+                (_, Some(Res::Cancelled)) => add("operation_future_cancelled_at_an_await", 1),
                 (_, Some(Res::Err(_))) => add("operation_reported_error_(buffer_full_or_closed)", 1),
                 (_, None) => add("operation_never_returned", 1),
                 _ => {}
